@@ -210,7 +210,7 @@ def install(reg):
         ("C01-F7-parser-close-decision-honoured", "implies(self.request.connection_close, self.close_on_finish)"),
     ]
     LOCALS = {"must_close": Bool, "version": Str, "connection": Str, "content_length_header": Opt(Str), "date_header": Opt(Str), "server_header": Opt(Str)}
-    HDR_LOCALS_OK = [("collected-header-values-have-no-cr-lf", "no_crlf(content_length_header) and no_crlf(date_header) and no_crlf(server_header)"),
+    HDR_LOCALS_OK = [("C08-collected-header-values-have-no-cr-lf", "no_crlf(content_length_header) and no_crlf(date_header) and no_crlf(server_header)"),
                      ("version-local", "version == self.version"), ("must-close-is-the-parsers-decision", "must_close == self.request.connection_close")]
 
     def as_final(text):
@@ -226,7 +226,7 @@ def install(reg):
     brh.unreachable_ok = ('raise AssertionError("neither HTTP/1.0 or HTTP/1.1")',)
     # `must_close` is a helper local of the current code (it caches request.connection_close); no property clause mentions it
     brh.cuts = [
-        Cut('if version == "1.0":', HDR_LOCALS_OK + [("flags-untouched-so-far", "self.chunked_response == old(self.chunked_response) and self.close_on_finish == old(self.close_on_finish)")], LOCALS, optional=["must_close"]),
+        Cut('if version == "1.0":', HDR_LOCALS_OK + [("C03-flags-untouched-so-far", "self.chunked_response == old(self.chunked_response) and self.close_on_finish == old(self.close_on_finish)")], LOCALS, optional=["must_close"]),
         Cut("ident = self.channel.server.adj.ident", HDR_LOCALS_OK + FCL, LOCALS, optional=["must_close"]),
         Cut("first_line = f", FCL, LOCALS, optional=["must_close"]),
     ]
@@ -341,7 +341,7 @@ def install_execute(reg, IDENT, CLREQ):
         modifies=["self.remain"]))
     reg.add(FuncContract("buffers.FileBasedBuffer.close", modifies=["self.remain"], check_invariant=False))
     reg.add(FuncContract("task.WSGITask.get_environment", returns=Opaque("environ")))
-    reg.add(FuncContract(T + ".remove_content_length_header", loops={0: LoopSpec(invariants=[("kept-headers-wellformed", "all_elems(response_headers, 'hdr_ok')")],
+    reg.add(FuncContract(T + ".remove_content_length_header", loops={0: LoopSpec(invariants=[("C08-kept-headers-wellformed", "all_elems(response_headers, 'hdr_ok')")],
                                                                                  types={"response_headers": ListOf(TupleOf(Str, Str))})},
                          modifies=["self.response_headers"]))
 
@@ -365,7 +365,7 @@ def install_execute(reg, IDENT, CLREQ):
         modifies=["self.wrote_header", "self.content_bytes_written", "self.response_headers", "self.close_on_finish", "self.chunked_response",
                   "self.channel.wire", "self.status", "self.complete", "self.content_length", "self.logged_write_excess", "self.logged_write_no_body",
                   "self.environ"],
-        loops={0: LoopSpec(invariants=[("not-closed-during-iteration", "closes() == 0"), CLREQ, ("not-handed-over", "not handed_over()")] + T_INV,
+        loops={0: LoopSpec(invariants=[("C09-not-closed-during-iteration", "closes() == 0"), CLREQ, ("C09-not-handed-over", "not handed_over()")] + T_INV,
                            types={"first_chunk_len": Opt(Int)})}))
 
     def seg2_init(eng, fr):
@@ -385,7 +385,7 @@ def install_execute(reg, IDENT, CLREQ):
             it.types = frozenset()
         eng.state.ghost["app_iter"] = it
         fr.env["app_iter"] = it
-    ex.cuts = [Cut("can_close_app_iter = True", [CLREQ, ("not-closed-yet", "closes() == 0"), ("not-handed-over", "not handed_over()"),
+    ex.cuts = [Cut("can_close_app_iter = True", [CLREQ, ("C09-not-closed-yet", "closes() == 0"), ("C09-not-handed-over", "not handed_over()"),
                                                  ("application-returned", "app_returned()")],
                    {"environ": Opaque("environ")}, init=seg2_init)]
 
